@@ -104,6 +104,28 @@ def job_rows(tier, seed):
         exp['rep'] = z3.BitVecVal(1, 8)
         g = c03.diff_goal(E.post_regs(r['st']), exp, R)[0] + [c08.noexit(r)]
         ck.prove('Row[%s]' % name, inv + [E.match_pred(E.rows[i], o)], z3.And(*g), vars=c03.vars_of(R, {'o': o}), sample='%s: repc := count operand, repeat flag set, nothing else' % name)
+    # rep <register>: the count is the plain 16-bit value of the register (operand.h Register order; the read does not
+    # saturate and has no side effect); status words, p, pc/sp/lc/ext and whole accumulators are left to the reference comparison
+    try:
+        i = find(E, 'rep', ('Register',))
+    except Exception:
+        i = None
+    if i is not None:
+        REG = {0: R['r[0]'], 1: R['r[1]'], 2: R['r[2]'], 3: R['r[3]'], 4: R['r[4]'], 5: R['r[5]'], 6: R['r[7]'], 7: R['y[0]'],
+               16: z3.Extract(31, 16, R['b[0]']), 17: z3.Extract(31, 16, R['b[1]']), 18: z3.Extract(15, 0, R['b[0]']), 19: z3.Extract(15, 0, R['b[1]']),
+               26: z3.Extract(15, 0, R['a[0]']), 27: z3.Extract(15, 0, R['a[1]']), 28: z3.Extract(31, 16, R['a[0]']), 29: z3.Extract(31, 16, R['a[1]']), 31: R['sv']}
+        idx = fld(E, i, 0, o, e)
+        val = None
+        for k_, t_ in REG.items():
+            val = t_ if val is None else z3.If(idx == k_, t_, val)
+        pre = [z3.Or(*[idx == k_ for k_ in REG])]
+        r = run(i, pre)
+        exp = dict(R)
+        exp['repc'] = val
+        exp['rep'] = z3.BitVecVal(1, 8)
+        g = c03.diff_goal(E.post_regs(r['st']), exp, R)[0] + [c08.noexit(r)]
+        ck.prove('Row[rep register]', inv + [E.match_pred(E.rows[i], o)] + pre, z3.And(*g), vars=c03.vars_of(R, {'o': o}),
+                 sample='rep <register> for the plain 16-bit sources (r0..r5, r7, y0, accumulator halves, sv): repc := the raw 16-bit value, repeat flag set, nothing else (no saturation, no limit flag)')
     for name, types in (('bkrep', ('Imm8', 'Address16')), ('bkrep_r6', ('Address18_16', 'Address18_2'))):
         i = find(E, name, types)
         r = run(i)
